@@ -435,7 +435,7 @@ func TestC11(t *testing.T) {
 	pbt.Main(t, pbt.Prop[Case]{
 		ID: "C11", Name: "snapshot",
 		Rule: "rapid-generated histories (1..30 ops) on a test scope (shard count 1/2/16): derive up to 6 scopes by SubScope/Tagged over a delimiter-free alphabet, record on counters (int64 extremes), gauges (hostile float bits), timers, value and duration histograms (fixed specs incl. unsorted, empty and groups of different specs that collide in the internal bucket cache, also across kinds), take snapshots at arbitrary points, mutate a held snapshot through its accessors (tags, timer slices, histogram maps, deleting entries), close subscopes and keep recording on them. Oracle: every snapshot read through Name()/Tags()/Value*() equals the reference tally as a set of entries, and every entry is filed under KeyForPrefixedStringMap(its full name, its tags) (metric names include the empty name); a held snapshot re-read after further recording equals its own earlier view; mutation of a snapshot never shows in a later one; closed test scopes stay visible; children of closed scopes are inert. Non-trivial: >=2 scopes with different tag sets and recording after a snapshot. Distinct: FNV-64 of the case JSON.",
-		Gen:  gen, Run: run,
+		Gen:  gen, Run: run, HangAfter: 20 * time.Second,
 	})
 }
 
@@ -514,6 +514,6 @@ func TestConcurrent(t *testing.T) {
 	pbt.Main(t, pbt.Prop[ConcCase]{
 		ID: "C11", Name: "concurrent",
 		Rule: "free-running mode (real parallelism, -race): 1..6 writer goroutines record on all metric kinds in tagged and sub scopes of one test scope while 1..6 goroutines take snapshots; every concurrently observed counter value lies between 0 and the final total, the final snapshot shows the exact total; race detector on. Non-trivial: >=2 writers.",
-		Gen:  genConc, Run: runConc, Retries: 30,
+		Gen:  genConc, Run: runConc, Retries: 30, HangAfter: 60 * time.Second,
 	})
 }
